@@ -17,7 +17,11 @@ LUA_PAGES = ["{{#invoke:counter|main}}", "{{#invoke:glob|main}} {{#invoke:glob|m
              "{{#invoke:bad|main}} {{#invoke:counter|main}} {{#invoke:strlib|main}} {{#invoke:counter|main}} {{#invoke:strlib|main}}",
              "{{#invoke:boom|main}} {{#invoke:tbllib|main}} {{#invoke:tbllib|main}} {{#invoke:counter|main}}{{#invoke:counter|main}}",
              "{{#invoke:boomload|main}} {{#invoke:glob|main}} {{#invoke:counter|main}} {{#invoke:counter|main}}",
-             "{{#invoke:counter|main}} {{#invoke:echo}} {{#invoke:counter|main}} {{#invoke:mathlib|main}} {{#invoke:mathlib|main}}"]
+             "{{#invoke:counter|main}} {{#invoke:echo}} {{#invoke:counter|main}} {{#invoke:mathlib|main}} {{#invoke:mathlib|main}}",
+             # invocations whose result is not a decodable string
+             "{{#invoke:badutf|main}} {{#invoke:counter|main}} {{#invoke:counter|main}} {{#invoke:glob|main}}{{#invoke:glob|main}}",
+             "{{#invoke:badutf|half}} {{#invoke:strlib|main}} {{#invoke:strlib|main}} {{#invoke:counter|main}}{{#invoke:counter|main}}",
+             "{{#invoke:badutf|tbl}}{{#invoke:badutf|num}}{{#invoke:badutf|fn}} {{#invoke:counter|main}} {{#invoke:counter|main}}"]
 TPL_PAGES = ["{{a|x}} {{b|p|x=q}}", "{{deep|w}} {{missing|y}}", "{{loop}} after", "{{m1}}", "<nowiki>{{a}}</nowiki> {{a|<nowiki>n</nowiki>}}",
              "{{#if:x|{{a|1}}|{{a|2}}}}", "== H ==\n* {{a|i}}\n{{list}}", "<foo>x</foo> <b>y</b>", "{{{1|d}}} [[l|{{a|z}}]]",
              "{{inv|q}}", "{{#expr: 1 +}} {{#expr:2*3}}", "{|\n| {{a|c}}\n|}", "''x'' '''y''' <ref>r</ref>"]
